@@ -217,15 +217,20 @@ PROPS["C12"] = dict(
     ],
 )
 
+import labels2coq  # noqa: E402
+
 PROPS["C08"] = dict(
-    level="exploration",
-    coq_targets=[],
+    level="proof",
+    translators=[labels2coq.gen_labels],
+    coq_targets=["C08/Model", "C08/Properties"],
     runs=[dict(bin="c08", profiles=["dev", "release"])],
-    quick=dict(n=6000, shards=1),
-    thorough=dict(n=400000, shards=1, run_timeout=3400),
+    quick=dict(n=6000, shards=8),
+    thorough=dict(n=400000, shards=16, run_timeout=3400),
     trusted_base=[
-        "exploration only so far: every parser (N-Triples, N-Quads, Turtle, TriG, generalized N-Quads/TriG, RDF/XML, JSON-LD without remote contexts) is run, in dev and release builds, on valid documents, single-edit mutants, dictionary splices, invalid UTF-8 and (in a subprocess on a 2 MiB thread) deeply nested inputs; every accessor of every yielded term is called and checked with the toolkit's own validators",
-        "the decisive content of C08 (termination and panic-freedom of ~8000 lines of third-party parser code on every byte string) is run-time behaviour that a model cannot exhibit; the logical core (validators accept whatever the strict back-ends' token rules accept) is planned as regenerated-regex inclusion theorems and is NOT claimed yet",
+        "PARTIAL BY NATURE. Proved (no axioms), with the validator regexes BNODE_ID, VARNAME, LANG_TAG re-generated from api/src/term/*.rs on every run (lib/labels2coq.py): every blank node label and language tag that the Rio token rules (transcribed by hand in coq/C08/Tokens.v from rio_turtle's shared.rs) accept is accepted by the toolkit's validator; BNODE_ID equals Rio's label language and is included in the W3C BLANK_NODE_LABEL; VARNAME equals SPARQL's VARNAME -- by the Kleene-algebra decision procedure ka, transported to a verified derivative matcher over code points (infrastructure shared with C09)",
+        "IRIs: the strict parsers validate with oxiri; that IRI validation equals RFC 3987 is C09; oxiri = RFC 3987 is correspondence only",
+        "NOT proved, explored only: termination and panic-freedom of ~8000 lines of third-party parser code on every byte string; every parser (N-Triples, N-Quads, Turtle, TriG, generalized N-Quads/TriG, RDF/XML, JSON-LD without remote contexts) is run, in dev and release builds, on valid documents, single-edit mutants, dictionary splices, invalid UTF-8 and (in a subprocess on a 2 MiB thread) deeply nested inputs; every accessor of every yielded term is called and checked with the toolkit's own validators",
+        "Rust regex engine semantics (whole-string anchored match), tied by evaluating the regenerated regexes on boundary strings inside Coq against BnodeId::new / VarName::new / LanguageTag::new",
     ],
-    assumptions=[],
+    assumptions=["Rio's token acceptors are as transcribed in coq/C08/Tokens.v (third-party code, read by hand)"],
 )
